@@ -26,6 +26,8 @@ Fixpoint writes (prog : list astep) : list path :=
       match a with
       | MkTemp p | Create p | Append p _ | Close p | Remove p => [p]
       | Advertise src _ => [src]
+      | Rename src _ => [src]
+      | Rebuild _ _ tmp => [tmp]
       | _ => []
       end ++ writes r
   end.
@@ -33,9 +35,15 @@ Fixpoint writes (prog : list astep) : list path :=
 Lemma writes_app : forall a b, writes (a ++ b) = writes a ++ writes b.
 Proof. induction a; simpl; intros; auto. rewrite IHa, app_assoc. reflexivity. Qed.
 
+Lemma owned_not_adv : forall p o, owner p = Some o -> is_adv p = false.
+Proof. destruct p; simpl; congruence. Qed.
+
 Section Inv.
 Variable gunzip : content -> content.
 Variable origin : path -> content.
+(* the uncompressed tar the origin stands for is the gunzip of its data section *)
+Hypothesis gunzip_ok : forall dir h,
+  gunzip (origin (PMember dir MDat h)) = origin (PMember dir MTar h).
 
 (* steps that only touch the builder's own temporary names *)
 Definition own_step (o : nat) (a : astep) : Prop :=
@@ -58,8 +66,13 @@ Fixpoint prog_ok (o : nat) (d : disk) (prog : list astep) : Prop :=
   | Symlink src dst :: rest =>
       owner src = Some o /\ is_adv dst = true /\ d src = Some (File (origin dst) true) /\
       ~ In src (writes rest) /\ prog_ok o d rest
-  | Rebuild _ _ :: _ => False
-  | CreateFollow _ _ :: _ => False
+  | Rename src dst :: rest =>
+      owner src = Some o /\ is_adv dst = true /\ d src = Some (File (origin dst) true) /\
+      prog_ok o (upd d src None) rest
+  | Rebuild gz tar tmp :: rest =>
+      (* PackageData ends the program; it rebuilds <h>.dat.tar from <h>.dat.tar.gz of the same directory *)
+      rest = [] /\ owner tmp = Some o /\
+      exists dir h, gz = PMember dir MDat h /\ tar = PMember dir MTar h
   | a :: rest => own_step o a /\ prog_ok o (fst (exec gunzip d a)) rest
   end.
 
@@ -95,13 +108,20 @@ Proof.
   destruct a; try contradiction;
     try (destruct H as [Hs H]; split; [exact Hs|];
          eapply IH; [|exact H]; apply own_step_agree; auto; fail).
-  - destruct H as (H1 & H2 & H3 & H4 & H5 & H6). repeat split; auto.
+  - (* Advertise *)
+    destruct H as (H1 & H2 & H3 & H4 & H5 & H6). repeat split; auto.
     + rewrite <- (Ha src H1). exact H3.
     + eapply IH; eauto.
     + eapply IH; [|exact H6]. apply agree_upd; auto.
-  - destruct H as (H1 & H2 & H3 & H4 & H5). repeat split; auto.
+  - (* Symlink *)
+    destruct H as (H1 & H2 & H3 & H4 & H5). repeat split; auto.
     + rewrite <- (Ha src H1). exact H3.
     + eapply IH; eauto.
+  - (* Rebuild *) exact H.
+  - (* Rename *)
+    destruct H as (H1 & H2 & H3 & H4). repeat split; auto.
+    + rewrite <- (Ha src H1). exact H3.
+    + eapply IH; [|exact H4]. apply agree_upd; auto.
 Qed.
 
 Lemma writes_owned : forall prog o d, prog_ok o d prog ->
@@ -113,17 +133,21 @@ Proof.
   - destruct H as [_ H]. eapply IH; eauto.
   - destruct H as (H1 & _ & _ & _ & H5 & _). destruct Hin as [<-|Hin]; [exact H1 | eapply IH; eauto].
   - destruct H as (_ & _ & _ & _ & H5). eapply IH; eauto.
+  - destruct H as (-> & H1 & _). destruct Hin as [<-|[]]. exact H1.
+  - destruct H as (H1 & _ & _ & H4). destruct Hin as [<-|Hin]; [exact H1 | eapply IH; eauto].
 Qed.
 
 (* ---- the system invariant -------------------------------------------------- *)
-(* every advertised name is absent or a link to a complete file with the
-   origin's bytes for that name *)
+(* every advertised name is absent, or a link to a temporary name holding a
+   complete file with the origin's bytes for that name, or (after a rename)
+   such a file itself *)
 Definition DiskOK (d : disk) : Prop :=
   forall n, is_adv n = true ->
     match d n with
     | None => True
-    | Some (Link t) => d t = Some (File (origin n) true)
-    | Some _ => False
+    | Some (Link t) => is_adv t = false /\ d t = Some (File (origin n) true)
+    | Some (File c b) => c = origin n /\ b = true
+    | Some Dir => False
     end.
 
 (* no builder will ever write to or remove the target of an advertised link *)
@@ -140,7 +164,8 @@ Lemma DiskOK_sound : forall d, DiskOK d -> CacheSound origin d.
 Proof.
   intros d H n Hn Hex. specialize (H n Hn). unfold resolve.
   destruct (d n) as [[c b|t|]|]; try contradiction; try congruence.
-  rewrite H. reflexivity.
+  - destruct H as [-> ->]. reflexivity.
+  - destruct H as [_ H]. rewrite H. reflexivity.
 Qed.
 
 (* an own step does not change a path that holds something and is not in the
@@ -199,6 +224,58 @@ Proof.
   - apply upd_other; auto.
 Qed.
 
+(* ---- helper lemmas about writing a file (used for the rebuild and for the protocols) *)
+Lemma prog_ok_ext : forall prog o d d', (forall q, d q = d' q) -> prog_ok o d prog -> prog_ok o d' prog.
+Proof. intros. eapply prog_ok_agree; eauto. intros q _. auto. Qed.
+
+Ltac upd_ext :=
+  let r := fresh "r" in
+  intros r; unfold upd; repeat (destruct (path_eq_dec _ _)); subst;
+  rewrite ?app_nil_r, <- ?app_assoc; simpl; try congruence; auto.
+
+Lemma prog_ok_appends : forall c o d p x rest, owner p = Some o -> d p = Some (File x false) ->
+  prog_ok o (upd d p (Some (File (x ++ c) false))) rest ->
+  prog_ok o d (List.map (Append p) c ++ rest).
+Proof.
+  induction c as [|a c IH]; intros o d p x rest Ho Hd H.
+  - simpl. eapply prog_ok_ext; [|exact H]. intros r. unfold upd.
+    destruct (path_eq_dec r p); subst; rewrite ?app_nil_r; auto.
+  - cbn [List.map app prog_ok]. split; [exact Ho|].
+    cbn [exec fst]. rewrite Hd.
+    eapply (IH o _ p (x ++ [a])); auto.
+    + apply upd_same.
+    + eapply prog_ok_ext; [|exact H]. upd_ext.
+Qed.
+
+Lemma prog_ok_write_file : forall c o d p rest, owner p = Some o ->
+  prog_ok o (upd d p (Some (File c true))) rest -> prog_ok o d (write_file p c ++ rest).
+Proof.
+  intros c o d p rest Ho H. unfold write_file.
+  cbn [app prog_ok]. split; [exact Ho|]. cbn [exec fst].
+  rewrite <- app_assoc. eapply (prog_ok_appends c o _ p []); auto.
+  - apply upd_same.
+  - cbn [app prog_ok]. split; [exact Ho|]. cbn [exec fst]. rewrite upd_same.
+    eapply prog_ok_ext; [|exact H]. upd_ext.
+Qed.
+
+Lemma writes_write_file : forall c p rest q,
+  In q (writes (write_file p c ++ rest)) -> q = p \/ In q (writes rest).
+Proof.
+  intros c p rest q. unfold write_file. simpl. intros [<-|H]; auto.
+  rewrite <- app_assoc in H. induction c as [|x c IH]; simpl in H.
+  - destruct H as [<-|H]; auto.
+  - destruct H as [<-|H]; auto.
+Qed.
+
+Lemma DiskOK_resolve : forall d n z b, DiskOK d -> is_adv n = true ->
+  resolve d n = Some (z, b) -> z = origin n /\ b = true.
+Proof.
+  intros d n z b H Hn Hr. specialize (H n Hn). unfold resolve in Hr.
+  destruct (d n) as [[c b'|t|]|]; try discriminate.
+  - destruct H as [-> ->]. inversion Hr. auto.
+  - destruct H as [_ H]. rewrite H in Hr. inversion Hr. auto.
+Qed.
+
 Theorem step_preserves_Inv : forall s i, Inv s -> Inv (step gunzip s i).
 Proof.
   intros s i (HD & HF & HP). unfold step.
@@ -211,10 +288,13 @@ Proof.
   assert (Hcases :
     (own_step i a /\ prog_ok i d' rest) \/
     (exists src dst, a = Advertise src dst) \/
-    (exists src dst, a = Symlink src dst)).
+    (exists src dst, a = Symlink src dst) \/
+    (exists gz tar tmp, a = Rebuild gz tar tmp) \/
+    (exists src dst, a = Rename src dst)).
   { destruct a; simpl in Hok; try contradiction; subst d';
-      try (left; destruct Hok; split; assumption); right; [left|right]; eauto. }
-  destruct Hcases as [[Hs Hrest] | [(src & dst & ->) | (src & dst & ->)]].
+      try (left; destruct Hok; split; assumption); right;
+      [left|right; left|right; right; left|right; right; right]; eauto. }
+  destruct Hcases as [[Hs Hrest] | [(src & dst & ->) | [(src & dst & ->) | [(gz & tar & tmp & ->) | (src & dst & ->)]]]].
   - (* ---- an own step ---- *)
     assert (Hnil : snd (exec gunzip (dsk s) a) = []) by (eapply own_step_pre; eauto).
     rewrite Hnil in Hpre. subst pre. clear Hnil. simpl.
@@ -224,7 +304,7 @@ Proof.
     split; [|split].
     + intros n Hn. cbn [dsk]. rewrite Hd', (own_step_adv i a (dsk s) n Hs Hn).
       specialize (HD n Hn). destruct (dsk s n) as [[c b|t|]|] eqn:En; auto.
-      eapply own_step_keeps; eauto.
+      destruct HD as [Ht HD]. split; auto. eapply own_step_keeps; eauto.
     + intros n t Hn Hl j prog Hj. cbn [dsk procs] in *.
       rewrite Hd', (own_step_adv i a (dsk s) n Hs Hn) in Hl.
       destruct (Nat.eq_dec j i) as [->|Hne].
@@ -271,9 +351,10 @@ Proof.
     + (* the link is created *)
       split; [|split].
       * intros n Hn. cbn [dsk]. destruct (path_eq_dec n dst) as [->|Hne].
-        -- rewrite upd_same, upd_other by auto. exact K3.
+        -- rewrite upd_same, upd_other by auto. split; [eapply owned_not_adv; eauto | exact K3].
         -- rewrite upd_other by auto. specialize (HD n Hn).
            destruct (dsk s n) as [[c b|t|]|] eqn:En; auto.
+           destruct HD as [Ht HD]. split; auto.
            rewrite upd_other; auto. intros ->. congruence.
       * intros n t Hn Hl j prog Hj. cbn [dsk procs] in *.
         destruct (path_eq_dec n dst) as [->|Hnd].
@@ -295,6 +376,76 @@ Proof.
            eapply prog_ok_agree; [apply Hag | exact K5].
         -- rewrite set_nth_other in Hj by auto.
            eapply prog_ok_agree; [apply Hag | apply HP; auto].
+  - (* ---- Rebuild: PackageData decides; the disk is unchanged ---- *)
+    simpl in Hok. destruct Hok as (-> & K1 & dir & h & -> & ->).
+    assert (Ed : d' = dsk s) by (rewrite Hd'; reflexivity).
+    assert (Epre : pre =
+      match resolve (dsk s) (PMember dir MTar h) with
+      | Some _ => []
+      | None => match resolve (dsk s) (PMember dir MDat h) with
+                | Some (z, _) => write_file tmp (gunzip z) ++ [Rename tmp (PMember dir MTar h)]
+                | None => []
+                end
+      end) by (rewrite Hpre; reflexivity).
+    clear Ex Hd' Hpre. subst d'. rewrite app_nil_r.
+    (* whatever it continues with only ever touches tmp *)
+    assert (Hwr : forall q, In q (writes pre) -> q = tmp).
+    { intros q Hq. rewrite Epre in Hq. destruct (resolve (dsk s) (PMember dir MTar h)); [contradiction|].
+      destruct (resolve (dsk s) (PMember dir MDat h)) as [[z bz]|]; [|contradiction].
+      apply writes_write_file in Hq. destruct Hq as [Hq|Hq]; auto.
+      simpl in Hq. destruct Hq as [Hq|[]]; auto. }
+    split; [exact HD|]. split.
+    + intros n t Hn Hl j prog Hj. cbn [dsk procs] in *.
+      destruct (Nat.eq_dec j i) as [->|Hne].
+      * erewrite set_nth_same in Hj by eauto. inversion Hj; subst prog.
+        intro Hin. apply Hwr in Hin. subst t.
+        apply (HF n tmp Hn Hl i _ Ei). simpl. auto.
+      * rewrite set_nth_other in Hj by auto. eapply HF; eauto.
+    + intros j prog Hj. cbn [dsk procs] in *.
+      destruct (Nat.eq_dec j i) as [->|Hne].
+      * erewrite set_nth_same in Hj by eauto. inversion Hj; subst prog. rewrite Epre.
+        destruct (resolve (dsk s) (PMember dir MTar h)); [exact I|].
+        destruct (resolve (dsk s) (PMember dir MDat h)) as [[z bz]|] eqn:Ez; [|exact I].
+        destruct (DiskOK_resolve _ (PMember dir MDat h) _ _ HD eq_refl Ez) as [-> _].
+        apply prog_ok_write_file; [exact K1|].
+        cbn [prog_ok]. repeat split; auto.
+        rewrite upd_same. rewrite gunzip_ok. reflexivity.
+      * rewrite set_nth_other in Hj by auto. apply HP; auto.
+  - (* ---- Rename: the rebuilt tar is published atomically ---- *)
+    simpl in Hok. destruct Hok as (K1 & K2 & K3 & K4).
+    simpl in Ex. rewrite K3 in Ex. inversion Ex; subst d' pre; clear Ex. simpl.
+    pose proof (adv_not_owned dst K2) as Hdo.
+    assert (Hsd : src <> dst) by (intros ->; congruence).
+    assert (Hsrc_free : forall n t, is_adv n = true -> dsk s n = Some (Link t) -> t <> src).
+    { intros n t Hn Hl ->. apply (HF n src Hn Hl i _ Ei). simpl. auto. }
+    split; [|split].
+    + intros n Hn. cbn [dsk].
+      assert (Hns : n <> src) by (intros ->; pose proof (adv_not_owned _ Hn); congruence).
+      rewrite upd_other by auto.
+      destruct (path_eq_dec n dst) as [->|Hne].
+      * rewrite upd_same. auto.
+      * rewrite upd_other by auto. specialize (HD n Hn).
+        destruct (dsk s n) as [[c b|t|]|] eqn:En; auto.
+        destruct HD as [Ht HD]. split; auto.
+        rewrite upd_other by (eapply Hsrc_free; eauto).
+        rewrite upd_other; auto. intros ->. congruence.
+    + intros n t Hn Hl j prog Hj. cbn [dsk procs] in *.
+      assert (Hns : n <> src) by (intros ->; pose proof (adv_not_owned _ Hn); congruence).
+      rewrite upd_other in Hl by auto.
+      destruct (path_eq_dec n dst) as [->|Hne]; [rewrite upd_same in Hl; discriminate|].
+      rewrite upd_other in Hl by auto.
+      destruct (Nat.eq_dec j i) as [->|Hnj].
+      * erewrite set_nth_same in Hj by eauto. inversion Hj; subst prog.
+        intro Hin. apply (HF n t Hn Hl i _ Ei). simpl. auto.
+      * rewrite set_nth_other in Hj by auto. eapply HF; eauto.
+    + intros j prog Hj. cbn [dsk procs] in *.
+      destruct (Nat.eq_dec j i) as [->|Hnj].
+      * erewrite set_nth_same in Hj by eauto. inversion Hj; subst prog.
+        eapply prog_ok_agree; [|exact K4].
+        apply agree_upd. apply agree_upd_r; [congruence | apply agree_refl].
+      * rewrite set_nth_other in Hj by auto.
+        eapply prog_ok_agree; [|apply HP; eauto].
+        apply agree_upd_r; [congruence|]. apply agree_upd_r; [congruence | apply agree_refl].
 Qed.
 
 Theorem run_preserves_Inv : forall sched s, Inv s -> Inv (run gunzip s sched).
@@ -319,38 +470,13 @@ Variable gunzip : content -> content.
 Variable origin : path -> content.
 Notation pok := (prog_ok gunzip origin).
 
-Lemma prog_ok_ext : forall prog o d d', (forall q, d q = d' q) -> pok o d prog -> pok o d' prog.
-Proof. intros. eapply prog_ok_agree; eauto. intros q _. auto. Qed.
-
 Ltac upd_ext :=
   let r := fresh "r" in
   intros r; unfold upd; repeat (destruct (path_eq_dec _ _)); subst;
   rewrite ?app_nil_r, <- ?app_assoc; simpl; try congruence; auto.
-
-Lemma prog_ok_appends : forall c o d p x rest, owner p = Some o -> d p = Some (File x false) ->
-  pok o (upd d p (Some (File (x ++ c) false))) rest ->
-  pok o d (List.map (Append p) c ++ rest).
-Proof.
-  induction c as [|a c IH]; intros o d p x rest Ho Hd H.
-  - simpl. eapply prog_ok_ext; [|exact H]. intros r. unfold upd.
-    destruct (path_eq_dec r p); subst; rewrite ?app_nil_r; auto.
-  - cbn [List.map app prog_ok]. split; [exact Ho|].
-    cbn [exec fst]. rewrite Hd.
-    eapply (IH o _ p (x ++ [a])); auto.
-    + apply upd_same.
-    + eapply prog_ok_ext; [|exact H]. upd_ext.
-Qed.
-
-Lemma prog_ok_write_file : forall c o d p rest, owner p = Some o ->
-  pok o (upd d p (Some (File c true))) rest -> pok o d (write_file p c ++ rest).
-Proof.
-  intros c o d p rest Ho H. unfold write_file.
-  cbn [app prog_ok]. split; [exact Ho|]. cbn [exec fst].
-  rewrite <- app_assoc. eapply (prog_ok_appends c o _ p []); auto.
-  - apply upd_same.
-  - cbn [app prog_ok]. split; [exact Ho|]. cbn [exec fst]. rewrite upd_same.
-    eapply prog_ok_ext; [|exact H]. upd_ext.
-Qed.
+Notation prog_ok_ext := (prog_ok_ext gunzip origin).
+Notation prog_ok_appends := (prog_ok_appends gunzip origin).
+Notation prog_ok_write_file := (prog_ok_write_file gunzip origin).
 
 Lemma prog_ok_mix : forall a b o d p q x y rest,
   owner p = Some o -> owner q = Some o -> p <> q ->
@@ -395,17 +521,22 @@ Qed.
 Lemma writes_adv_steps : forall l, writes (adv_steps l) = List.map fst l.
 Proof. induction l as [|[s t] l IH]; simpl; congruence. Qed.
 
-Lemma prog_ok_adv_steps : forall l o d, NoDup (List.map fst l) ->
+Lemma prog_ok_adv_steps : forall l rest o d, NoDup (List.map fst l) ->
+  (forall s, In s (List.map fst l) -> ~ In s (writes rest)) ->
+  (forall d', pok o d' rest) ->
   (forall s t, In (s, t) l ->
      owner s = Some o /\ is_adv t = true /\ d s = Some (File (origin t) true)) ->
-  pok o d (adv_steps l).
+  pok o d (adv_steps l ++ rest).
 Proof.
-  induction l as [|[s t] l IH]; intros o d Hnd H; [exact I|].
+  induction l as [|[s t] l IH]; intros rest o d Hnd Hw Hrest H; [apply Hrest|].
   simpl in Hnd. inversion Hnd as [|? ? Hnin Hnd']; subst.
   destruct (H s t (or_introl eq_refl)) as (H1 & H2 & H3).
-  change (adv_steps ((s, t) :: l)) with (Advertise s t :: adv_steps l).
+  change (adv_steps ((s, t) :: l) ++ rest) with (Advertise s t :: adv_steps l ++ rest).
+  assert (Hw' : forall s0, In s0 (List.map fst l) -> ~ In s0 (writes rest)).
+  { intros s0 Hs0. apply Hw. right. exact Hs0. }
   cbn [prog_ok]. repeat split; auto.
-  - rewrite writes_adv_steps. exact Hnin.
+  - rewrite writes_app, writes_adv_steps. intro Hin. apply in_app_or in Hin.
+    destruct Hin as [Hin|Hin]; [exact (Hnin Hin)|]. apply (Hw s); [left; reflexivity | exact Hin].
   - apply IH; auto. intros s' t' Hin. apply H. right. exact Hin.
   - apply IH; auto. intros s' t' Hin.
     destruct (H s' t' (or_intror Hin)) as (A & B & C). repeat split; auto.
@@ -419,8 +550,11 @@ Lemma populate_index_ok : forall o d0 dir etag,
 Proof.
   intros. unfold populate_index. cbn [prog_ok]. split; [split; reflexivity|].
   apply prog_ok_write_file; [reflexivity|].
+  rewrite <- (app_nil_r (adv_steps _)).
   apply prog_ok_adv_steps.
   - repeat constructor. simpl. tauto.
+  - intros s _ [].
+  - intros d'. exact I.
   - intros s t [E|[]]. inversion E; subst. repeat split. apply upd_same.
 Qed.
 
@@ -439,11 +573,15 @@ Proof.
     (forall s, a_sig a = Some s -> d2 (PTmpMem dir o MSig) = Some (File s true)) ->
     pok o d2 (Create (PTmpMem dir o MDat) :: Create (PTmpMem dir o MTar) ::
        mix (PTmpMem dir o MDat) (PTmpMem dir o MTar) (a_dat a) (a_tar a) ++
-       Close (PTmpMem dir o MTar) :: Close (PTmpMem dir o MDat) :: adv_steps (pkg_advs o dir a))).
+       Close (PTmpMem dir o MTar) :: Close (PTmpMem dir o MDat) ::
+       adv_steps (pkg_advs o dir a) ++ open_tar o dir (a_dath a))).
   { intros d2 H2c H2s. apply prog_ok_pair; try reflexivity; try congruence.
     apply prog_ok_adv_steps.
     - unfold pkg_advs. destruct (a_sig a); simpl; repeat constructor; simpl;
         intuition congruence.
+    - intros s0 Hs0 Hin. simpl in Hin. destruct Hin as [<-|[]].
+      unfold pkg_advs in Hs0. destruct (a_sig a); simpl in Hs0; intuition discriminate.
+    - intros d'. unfold open_tar. cbn [prog_ok]. repeat split; eauto.
     - intros s t Hin. unfold pkg_advs in Hin.
       assert (Hcases : (s, t) = (PTmpMem dir o MCtl, PMember dir MCtl (a_ctlh a)) \/
               (exists sg, a_sig a = Some sg /\ (s, t) = (PTmpMem dir o MSig, PMember dir MSig (a_ctlh a))) \/
@@ -480,12 +618,12 @@ Proof.
 Qed.
 
 Theorem population_sound : forall origin gunzip bs sched,
-  builders_ok origin bs -> (forall b, In b bs -> is_reader b = false) ->
+  origin_gunzip origin gunzip -> builders_ok origin bs ->
   CacheSound origin (dsk (run gunzip (init (progs origin bs)) sched)).
 Proof.
-  intros origin gunzip bs sched Hok Hnr.
+  intros origin gunzip bs sched Hgz Hok.
   apply DiskOK_sound.
-  destruct (run_preserves_Inv gunzip origin sched (init (progs origin bs))) as (HD & _); auto.
+  destruct (run_preserves_Inv gunzip origin Hgz sched (init (progs origin bs))) as (HD & _); auto.
   apply init_Inv. intros j prog Hj.
   destruct (nth_progs_from _ _ _ _ _ Hj) as (b & Hb & ->).
   change (0 + j) with j.
@@ -493,7 +631,7 @@ Proof.
   destruct b as [dir e|dir a|dir dh]; unfold prog_of.
   - apply (populate_index_ok gunzip origin).
   - apply (populate_package_ok gunzip origin). apply Hok. exact Hin.
-  - specialize (Hnr _ Hin). discriminate.
+  - unfold open_tar. cbn [prog_ok]. repeat split; eauto.
 Qed.
 
 Lemma resolve_exists : forall d n r, resolve d n = Some r -> d n <> None.
@@ -599,33 +737,39 @@ Definition w_dh (c : content) : string := "d".
 
 (* builder 0 populates and is killed between advertising <d>.dat.tar.gz and
    <d>.dat.tar (16 steps); builder 1 is a later build whose cachedPackage finds
-   control and data, starts PackageData's in-place rebuild and is killed after
-   the first write (3 steps); builder 2 is a later complete download, run to
-   the end: AdvertiseCachedFile finds <d>.dat.tar present and removes its own
-   complete copy *)
+   control and data and starts PackageData's rebuild.  In [w_sched] it is killed
+   after the first write into its temporary file and builder 2, a later
+   complete download, runs to the end; in [w_sched2] it runs to the end.
+   (Before fix 90139a3 the rebuild wrote under the final name and [w_sched]
+   left a partial <d>.dat.tar that every later lookup hit: finding C19-F1.) *)
 Definition w_bs : list builder := [BPackage "p" w_apk; BReader "p" "d"; BPackage "p" w_apk].
 Definition w_sched : list nat := repeat 0 16 ++ [1; 1; 1] ++ repeat 2 40.
+Definition w_sched2 : list nat := repeat 0 16 ++ repeat 1 10.
 Definition w_disk : disk := dsk (run w_gunzip (init (progs w_origin w_bs)) w_sched).
+Definition w_disk2 : disk := dsk (run w_gunzip (init (progs w_origin w_bs)) w_sched2).
 
 Lemma w_bs_ok : builders_ok w_origin w_bs.
 Proof.
   intros dir a [E|[E|[E|[]]]]; inversion E; subst; repeat split; try reflexivity;
     intros s E'; discriminate.
 Qed.
+Lemma w_gunzip_ok : origin_gunzip w_origin w_gunzip.
+Proof. intros dir h. reflexivity. Qed.
 
-Lemma rebuild_breaks_cache :
-  ~ CacheSound w_origin w_disk /\
-  exists m, read_package w_dh w_disk "p" "c" = Hit m /\
-            m_tar m = ["t1"] /\ m_tar m <> w_origin (PMember "p" MTar (w_dh (m_ctl m))) /\
-            w_disk (PMember "p" MTar "d") = Some (File ["t1"] false).
-Proof.
-  split.
-  - intro H. specialize (H (PMember "p" MTar "d") eq_refl).
-    assert (X : w_disk (PMember "p" MTar "d") <> None) by (vm_compute; discriminate).
-    specialize (H X). vm_compute in H. discriminate H.
-  - eexists. split; [vm_compute; reflexivity|]. simpl.
-    split; [reflexivity|]. split; [discriminate|]. vm_compute. reflexivity.
-Qed.
+Definition w_hit : lookup :=
+  Hit {| m_ctl := ["ctl"]; m_sig := None; m_dat := ["gz"]; m_tar := ["t1"; "t2"] |}.
+
+Lemma rebuild_examples :
+  (* killed inside the rebuild: only a temporary file is left, the final name is
+     published by the later complete download *)
+  read_package w_dh w_disk "p" "c" = w_hit /\
+  w_disk (PTmpFile "p" 1) = Some (File ["t1"] false) /\
+  w_disk (PMember "p" MTar "d") = Some (Link (PTmpMem "p" 2 MTar)) /\
+  (* rebuild run to the end: the final name is a complete regular file *)
+  read_package w_dh w_disk2 "p" "c" = w_hit /\
+  w_disk2 (PMember "p" MTar "d") = Some (File ["t1"; "t2"] true) /\
+  w_disk2 (PTmpFile "p" 1) = None.
+Proof. vm_compute. repeat split. Qed.
 
 (* an index download killed after its first write: the temporary file is what
    fetchOffline may pick (newest mtime in the directory) *)
